@@ -447,7 +447,9 @@ def plan (e : Env) (enc : Bytes → Bytes) : Op → Plan
     withPath (internalInfoPath e enc b k) t2 fun i => .ok (t2 ++ [rd i])
   | .headObject b k =>
     withPath (getObjectPath e b k) [] fun p =>
-    withPath (metadataPath e enc b k none) [rd p] fun m => .ok [rd p, rd m]
+    -- when nothing exists at the path the bucket directory is probed (`NoSuchKey` / `NoSuchBucket`); seen by `fspathsys`
+    withPath (getBucketPath e b) [rd p] fun bp =>
+    withPath (metadataPath e enc b k none) [rd p, rd bp] fun m => .ok [rd p, rd bp, rd m]
   | .deleteObject b k =>
     -- 20fee59: when nothing exists at the path the bucket directory is probed (`NoSuchBucket`, else success)
     withPath (getObjectPath e b k) [] fun p =>
